@@ -1,5 +1,7 @@
 import OmplModel.Proofs.Ptc
 import OmplModel.Proofs.PtcCost
+import OmplModel.Proofs.PtcNap
+import OmplModel.Proofs.PtcNapQ
 /-!
 C18 - termination conditions mean exactly what they say.  Property theorems over the model
 `OmplModel.Model.Ptc` (which the check ties to the C++ code by differential runs).
@@ -176,6 +178,15 @@ theorem iter_spec (env : Env) (henv : env.ctrMod = counterMod) (i n k : Nat) (s 
     (evalN env (.leaf i false (.iter n)) k s).1[j]? = some (decide (n < j + 1)) := by
   rw [iter_evalN env i n k s h, h0, henv]
   simp [hj, counterMod, Nat.mod_eq_of_lt hreach]
+
+/-- the hypothesis `s.cnt i = 0` of `iter_spec` is what the constructor and the cast establish: for an object as
+`IterationTerminationCondition(n)` constructs it (`timesCalled_ = 0`), turned into a condition by the cast in
+any state, evaluation `j+1` of that condition answers `n < j+1`. -/
+theorem iter_spec_fresh_object (env : Env) (henv : env.ctrMod = counterMod) (i n k : Nat) (s : St) (h : s.term i = false)
+    (j : Nat) (hj : j < k) (hreach : j + 1 < 18446744073709551616) :
+    (evalN env (Itc.cast { max := n } i false s).1 k (Itc.cast { max := n } i false s).2).1[j]? =
+      some (decide (n < j + 1)) :=
+  iter_spec env henv i n k _ (by simpa [Itc.cast] using h) (by simp [Itc.cast]) j hj hreach
 
 /-- the same between arbitrary batches of other operations -/
 theorem iter_spec_every_interleaving {α} [PNum α] (env : Env) (henv : env.ctrMod = counterMod) (i n : Nat)
@@ -425,6 +436,107 @@ theorem polled_cache_only_loses_terminate :
 example : (PState.run .asCoded (fun _ => false) {} [.check, .call, .terminate, .store, .check, .eval]).results =
     [(true, true)] := by decide
 
+/-! ### the periodically evaluated form: "no later than one period afterwards"
+
+`TState.step` (Model/Ptc.lean) is `periodicEval` with its sleeps: the outer test of the stop flags, the call
+of the predicate, the store, and `count` rounds of (test `i < count`, test the stop flags, `sleep_for(s)`);
+`napPlan period` is the `count` and `s` the code computes from the period (run at `Float` by the driver
+against the `nanosleep` calls of the real poller thread; theorems over ℚ).  Time is virtual: only the
+poller's sleeps take time and it wakes up punctually (the scheduler's lateness is assumption σ, checked
+against the real clock with a margin).  A list of steps is an interleaving of the poller with `terminate()`,
+destruction and evaluations from other threads. -/
+
+/-- the sleeps of one round add up to at most the period (and to no less than the period minus `count`
+microseconds, `time::seconds` truncating each sleep to whole microseconds); there is at least one round;
+every sleep is shorter than 2 ms, so the stop flags are looked at that often.  Every period the thread is
+started with, below 46 days (beyond 2^32 ms the conversion of `count` to `unsigned int` is undefined). -/
+theorem poll_schedule_within_period (period : ℚ) (h0 : 0 < period) (hbig : period ≤ 4000000) :
+    1 ≤ (napPlan period).count ∧ 0 ≤ (napPlan period).nap ∧ (napPlan period).nap < 2000000 ∧
+    (((napPlan period).count : Nat) : ℚ) * (((napPlan period).nap : Int) : ℚ) ≤ period * 1000000000 ∧
+    period * 1000000000 - ((napPlan period).count : ℚ) * 1000 <
+      (((napPlan period).count : Nat) : ℚ) * (((napPlan period).nap : Int) : ℚ) :=
+  let h := napPlan_bounds period h0 hbig
+  ⟨h.1, h.2.1, h.2.2.1, h.2.2.2.1, h.2.2.2.2.1⟩
+
+-- the hypotheses are met by ordinary periods (0.3 s; at `Float` the driver computes 300 sleeps of 1 ms for it,
+-- and the real poller thread makes exactly those): at least one sleep per round, of positive length
+example : 1 ≤ (napPlan (3 / 10 : ℚ)).count ∧ 0 < (napPlan (3 / 10 : ℚ)).nap :=
+  ⟨(poll_schedule_within_period _ (by norm_num) (by norm_num)).1, napPlan_nap_pos _ (by norm_num) (by norm_num)⟩
+
+/-- **the clause at full strength** (virtual time, see above): for every period from 1 µs to 46 days, every
+predicate that is true from time `T` on, and **every** interleaving of the poller's steps with `terminate()`,
+destruction and evaluations from the initial state: every evaluation made at a time `≥ T + period` answered
+true - the periodically evaluated condition reports true no later than one period after the predicate does.
+(Below 1 µs the sleep is truncated to 0: the poller polls without pause and virtual time stands still.) -/
+theorem polled_true_within_one_period (period : ℚ) (h1 : 1 / 1000000 ≤ period) (hbig : period ≤ 4000000)
+    (pred : Nat → Bool) (T : Nat) (htrue : ∀ t, T ≤ t → pred t = true) (steps : List TStep) :
+    ∀ p ∈ (TState.run (napPlan period).count (napPlan period).nap.toNat pred {} steps).results,
+      (T : ℚ) + period * 1000000000 ≤ (p.1 : ℚ) → p.2 = true := by
+  have h0 : 0 < period := lt_of_lt_of_le (by norm_num) h1
+  obtain ⟨hc1, hn0, _, htot, _⟩ := poll_schedule_within_period period h0 hbig
+  have hnpos := napPlan_nap_pos period h1 hbig
+  have hcast : (((napPlan period).nap.toNat : Nat) : ℚ) = (((napPlan period).nap : Int) : ℚ) := by
+    have : (((napPlan period).nap.toNat : Nat) : Int) = (napPlan period).nap := Int.toNat_of_nonneg hn0
+    exact_mod_cast congrArg (fun z : Int => (z : ℚ)) this
+  have hpos : 0 < (napPlan period).count * (napPlan period).nap.toNat :=
+    Nat.mul_pos (by omega) (by omega)
+  intro p hp hlate
+  refine rinv_run _ _ pred T htrue hpos steps {} (tinv_init _ _ pred) (fun q hq => by simp at hq) p hp ?_
+  have : (((T + (napPlan period).count * (napPlan period).nap.toNat : Nat)) : ℚ) ≤ (p.1 : ℚ) := by
+    push_cast
+    rw [hcast]
+    linarith
+  exact_mod_cast this
+
+/-- the step-machine statement behind it, for any `count` and sleep length: an evaluation at a time
+`≥ T + count·nap` answers true (arithmetic-free: it holds for whatever numbers the code computes). -/
+theorem polled_true_within_count_naps (count nap : Nat) (hpos : 0 < count * nap) (pred : Nat → Bool) (T : Nat)
+    (htrue : ∀ t, T ≤ t → pred t = true) (steps : List TStep) :
+    ∀ p ∈ (TState.run count nap pred {} steps).results, T + count * nap ≤ p.1 → p.2 = true :=
+  rinv_run count nap pred T htrue hpos steps {} (tinv_init count nap pred) (fun q hq => by simp at hq)
+
+-- count 3, sleeps of 10: the predicate turns true at time 5; the call at time 0 still saw `false`, so the
+-- evaluation at time 20 answers false; the next call is at time 30 = one round later, after it: true
+example : (TState.run 3 10 (fun t => decide (5 ≤ t)) {}
+    [.poller, .poller, .poller, .poller, .poller, .poller, .poller, .eval,
+     .poller, .poller, .poller, .poller, .poller, .poller, .eval]).results = [(30, true), (20, false)] := by decide
+
+/-- as long as neither `terminate()` nor destruction has been requested, the poller makes exactly `count`
+`nanosleep` calls (none when the sleep length is 0) between two consecutive calls of the predicate, and none
+before the first - in every interleaving.  (`lastGap` is what the harness reads at the gate.) -/
+theorem poller_sleeps_count_times_between_calls (count nap : Nat) (pred : Nat → Bool) (steps : List TStep)
+    (hreq : (TState.run count nap pred {} steps).req = false)
+    (hpc : (TState.run count nap pred {} steps).pc = .store) :
+    ((TState.run count nap pred {} steps).calls = 1 ∧ (TState.run count nap pred {} steps).lastGap = 0) ∨
+    (2 ≤ (TState.run count nap pred {} steps).calls ∧
+      (TState.run count nap pred {} steps).lastGap = napCalls nap count) := by
+  have h := (ginv_run count nap pred steps {} (ginv_init count nap) hreq).2.2
+  rw [hpc] at h
+  exact h.2
+
+example : (TState.run 2 7 (fun _ => false) {}
+    [.poller, .poller, .poller, .poller, .poller, .poller, .poller, .poller, .poller, .poller, .poller]).lastGap = 2 := by
+  decide
+
+/-- once `terminate()` or destruction has been requested the poller starts at most one more sleep and at
+most one more call of the predicate, in every interleaving … -/
+theorem poller_stops_within_one_nap (count nap : Nat) (pred : Nat → Bool) (steps : List TStep) :
+    (TState.run count nap pred {} steps).napsAfterReq ≤ 1 ∧ (TState.run count nap pred {} steps).callsAfterReq ≤ 1 := by
+  obtain ⟨_, _, h3, h4⟩ := qinv_run count nap pred steps {} qinv_init
+  exact ⟨by omega, by omega⟩
+
+/-- … and, from any state in which a stop flag is set, it has left its loop after four of its own steps
+(so the destructor's `join` returns within one sleep, which is shorter than 2 ms). -/
+theorem poller_gone_after_four_steps (count nap : Nat) (pred : Nat → Bool) (s : TState)
+    (h : (s.term || s.stop) = true) :
+    (s.run count nap pred [.poller, .poller, .poller, .poller]).pc = .done :=
+  tstop_four count nap pred s h
+
+-- terminate() while the poller is inside its call: no further sleep, no further call
+example : (TState.run 3 10 (fun _ => false) {} [.poller, .poller, .terminate, .poller, .poller, .poller, .poller, .poller]).pc = .done ∧
+    (TState.run 3 10 (fun _ => false) {} [.poller, .poller, .terminate, .poller, .poller, .poller, .poller, .poller]).naps = 0 := by
+  decide
+
 /-! ### the exact-solution condition -/
 
 /-- mirrors the problem definition: true iff it holds a solution that is not approximate -/
@@ -479,6 +591,31 @@ theorem costConv_stays_fired (env : Env) (i win : Nat) (eps : ℚ) (c : Nat → 
     (w0 : World ℚ) (ht : w0.st.term i = false) (k0 k : Nat) (hf : FiresAt win eps c k0) (hk : k0 ≤ k) :
     (eval env (newCostConv i win eps w0).1 (reportSeq c k (newCostConv i win eps w0).2).st).1 = true :=
   (costConv_spec env i win eps c hw1 hw2 w0 ht k).mpr ⟨k0, hk, hf⟩
+
+/-- **every interleaving**: report `j+1` may be preceded by an arbitrary batch `segs j` of other operations -
+evaluations and polls of any condition (this one included), `terminate()` of other conditions, solution
+reports - and a last batch may follow the `k`-th report; the condition is still true iff some report `j ≤ k`
+qualified.  (Excluded, because they change the answer by design: `terminate()` of this very condition and the
+construction of a second cost-convergence condition, which takes the callback away.) -/
+theorem costConv_spec_every_interleaving (env : Env) (i win : Nat) (eps : ℚ) (c : Nat → ℚ) (hw1 : 1 ≤ win)
+    (hw2 : win < sizeMod) (segs : Nat → List (Op ℚ)) (hq : ∀ k, ∀ op ∈ segs k, CostQuiet i op)
+    (w0 : World ℚ) (ht : w0.st.term i = false) (k : Nat) :
+    (eval env (newCostConv i win eps w0).1
+      ((reportSeqI env c segs k (newCostConv i win eps w0).2).run env (segs k)).st).1 = true ↔
+      ∃ j, j ≤ k ∧ FiresAt win eps c j := by
+  have h := (reportSeqI_spec env i win eps c hw1 hw2 segs hq (newCostConv i win eps w0).2
+    (by simp [newCostConv, PNum.ofNat]) (by simpa [newCostConv] using ht) k).2
+  have hqk := (run_quiet env i (segs k) (reportSeqI env c segs k (newCostConv i win eps w0).2) (hq k)).2
+  simp only [newCostConv] at h hqk ⊢
+  rw [never_const, hqk]
+  exact h
+
+-- non-vacuity of the side condition: evaluations of the condition itself, polls, other terminations qualify
+example : CostQuiet (α := ℚ) 3 (.eval (.leaf 3 false .never)) ∧ CostQuiet (α := ℚ) 3 (.terminate (.leaf 4 false .never)) ∧
+    ¬ CostQuiet (α := ℚ) 3 (.terminate (.leaf 3 false .never)) := by
+  refine ⟨trivial, ?_, ?_⟩
+  · simp [CostQuiet, Cond.impl]
+  · simp [CostQuiet, Cond.impl]
 
 /-- the state the callback carries is exactly `(avgₖ, k)` -/
 theorem costConv_state (i win : Nat) (eps : ℚ) (c : Nat → ℚ) (hw1 : 1 ≤ win) (hw2 : win < sizeMod)
